@@ -86,6 +86,12 @@ func buildC06(tier string, seed int64) *Family {
 		insts = append(insts, &vm.Instance{ID: "nesting: " + f.prefix + "{" + f.unit + "}^n " + f.core + " {" + f.close + "}^n", Harness: "H_deepnest",
 			Params: map[string]string{"prefix": f.prefix, "unit": f.unit, "core": f.core, "close": f.close, "n": "4", "native_n": "200000"}})
 	}
+	// flat repetitions: the work per repeated unit must not multiply (a step budget exhausted
+	// in the executor is replayed natively under a 20 s deadline)
+	for _, f := range [][2]string{{"a", "[1]"}, {"a", "[@a]"}, {"(//a)", "[a]"}, {"a", "/a"}, {"1", "+1"}, {"a", "|a"}, {"a", " or a"}, {"a", "[a][1]"}, {"a", "//a"}, {"a", "[a and a]"}, {"-1", "*-1"}, {"a", "=a"}} {
+		insts = append(insts, &vm.Instance{ID: "flat repetition: " + f[0] + "{" + f[1] + "}^40", Harness: "H_deepnest",
+			Params: map[string]string{"prefix": f[0], "unit": f[1], "core": "", "close": "", "n": "40"}})
+	}
 	// (e) the guards bite
 	for _, in := range []string{"1", "(1)", "a[1]", "a/b", "count(a)", "a or b"} {
 		insts = append(insts, &vm.Instance{ID: "guard parser: " + in, Harness: "H_guard", Params: map[string]string{"which": "parser", "input": in}})
